@@ -354,7 +354,13 @@ def calculate_nd_frequencies(
     frequencies = frequencies.astype(dtype)  # Automatically copy
     frequencies = frequencies[ixgrid]
     if weights is not None:
-        missing = weights.sum() - frequencies.sum()
+        # Rows outside all bins are counted exactly; only if there are any,
+        # their weight is the (possibly rounded) difference of the sums.
+        counts, _ = np.histogramdd(data, edges)
+        if counts[ixgrid].sum() == data.shape[0]:
+            missing = frequencies.dtype.type(0)
+        else:
+            missing = weights.sum() - frequencies.sum()
         err_freq, _ = np.histogramdd(data, edges, weights=weights**2)
         errors2 = err_freq[ixgrid].astype(dtype)  # Automatically copy
     else:
